@@ -172,9 +172,10 @@ def cases(tier, inst):
         for sh in binary_shapes(n):
             node = label(sh, [0])
             for kinds in itertools.product(("x", "xy", "o"), repeat=n):
-                if "o" not in kinds[1:] or (n == 4 and hash((sh, kinds)) % 3):
+                if "o" not in kinds or (n == 4 and hash((sh, kinds)) % 3):
                     continue
-                for base_binds in ((True, False) if kinds[0] == "xy" else (True,)):
+                # (a base that is a disjunction alone, base_binds False: its first side is true without binding y)
+                for base_binds in ((True, False) if kinds[0] in ("xy", "o") else (True,)):
                     for pattern in ("xy", "xalt", "x", "xysame", "xtwin", "xytwin", "xreftwin"):
                         for caching in (True, False):
                             yield ("kjoin", node, kinds, base_binds, pattern, caching)
